@@ -50,7 +50,10 @@ func init() {
 		return
 	}
 	os.Unsetenv(deepEnv)
-	deepChild(spec) // never returns
+	// not on this goroutine: during init the main goroutine is locked to its
+	// thread, every hand-over to the lexer goroutine would cost a futex call
+	go deepChild(spec) // ends the process
+	select {}
 }
 
 // deepDepths: ascending; the in-process workloads stop at 10^4.
@@ -58,7 +61,20 @@ var deepDepths = []int{1000, 10000, 100000, 300000, 1 << 20, 1 << 21, 3 << 20}
 
 var deepDepthsQuick = []int{1000, 100000, 1 << 20, 3 << 20}
 
-func deepDepthsFor(tier string) []int {
+func deepDepthsFor(tier, family string) []int {
+	switch family {
+	case "varexp-expression":
+		// every level costs a few tokens sent to the parser: smaller steps
+		if tier == "thorough" {
+			return []int{1000, 30000, 300000, 1 << 20}
+		}
+		return []int{1000, 30000, 300000}
+	case "path-segments":
+		if tier == "thorough" {
+			return []int{1000, 100000, 1 << 20, 3 << 20}
+		}
+		return []int{1000, 100000, 1 << 20}
+	}
 	if tier == "thorough" {
 		return deepDepths
 	}
@@ -111,6 +127,10 @@ func (rt deepRoute) family() string {
 		return "json-document"
 	case strings.HasPrefix(rt.name, "hjson."):
 		return "hjson-document"
+	case strings.HasPrefix(rt.name, "VarExp "):
+		return "varexp-expression"
+	case strings.HasPrefix(rt.name, "path "):
+		return "path-segments"
 	}
 	return "flag-value-syntax"
 }
@@ -159,9 +179,109 @@ func loaderRoute(name string, f func([]byte, ...ucfg.Option) (*ucfg.Config, erro
 	}}
 }
 
+// ${...} nested n deep in one string stored under VarExp
+var deepExprShapes = []deepShape{
+	{"nested-references", func(n int) string { return nest("${", n) + "a" + nest("}", n) }},
+	{"nested-defaults", func(n int) string { return nest("${x:", n) + "d" + nest("}", n) }},
+	{"nested-alternatives", func(n int) string { return nest("${a:+", n) + "d" + nest("}", n) }},
+	{"open-expansions", func(n int) string { return nest("${", n) }},
+}
+
+// names of n path segments
+var deepPathShapes = []deepShape{
+	{"name-segments", func(n int) string { return nest("a.", n) + "a" }},
+	{"index-segments", func(n int) string { return nest("0.", n) + "0" }},
+	{"mixed-segments", func(n int) string { return nest("a.0.", n/2) + "a" }},
+}
+
+func readLoaded(c *ucfg.Config, size int, opts ...ucfg.Option) string {
+	var out map[string]interface{}
+	err := c.Unpack(&out, opts...)
+	if size <= 12000 {
+		c.FlattenedKeys(opts...) // builds every path by concatenation, see loaderRoute
+	}
+	if _, e2 := ucfg.NewFrom(c, opts...); e2 != nil && err == nil {
+		err = e2
+	}
+	if err != nil {
+		return "built-read-error"
+	}
+	return "built-read"
+}
+
+// appended to deepRoutes (the indices of the earlier routes stay)
+var deepRoutesR4 = []deepRoute{
+	{"VarExp setting read with String and Unpack", deepExprShapes, func(s string) string {
+		opts := []ucfg.Option{ucfg.VarExp, ucfg.PathSep(".")}
+		c, err := ucfg.NewFrom(map[string]interface{}{"a": "a", "s": s}, opts...)
+		if err != nil {
+			return "error"
+		}
+		_, err = c.String("s", -1, opts...)
+		var out map[string]interface{}
+		if e2 := c.Unpack(&out, opts...); e2 != nil && err == nil {
+			err = e2
+		}
+		if err != nil {
+			return "built-read-error"
+		}
+		return "built-read"
+	}},
+	{"VarExp setting in a JSON document", deepExprShapes, func(s string) string {
+		opts := []ucfg.Option{ucfg.VarExp, ucfg.PathSep(".")}
+		c, err := ujson.NewConfig([]byte(`{"a":"a","s":"`+s+`"}`), opts...)
+		if err != nil {
+			return "error"
+		}
+		return readLoaded(c, len(s), opts...)
+	}},
+	{"path as key of a map given to NewFrom(PathSep)", deepPathShapes, func(s string) string {
+		c, err := ucfg.NewFrom(map[string]interface{}{s: 1}, ucfg.PathSep("."))
+		if err != nil {
+			return "error"
+		}
+		return readLoaded(c, len(s), ucfg.PathSep("."))
+	}},
+	{"path as key in a JSON document (PathSep)", deepPathShapes, func(s string) string {
+		c, err := ujson.NewConfig([]byte(`{"`+s+`":1}`), ucfg.PathSep("."))
+		if err != nil {
+			return "error"
+		}
+		return readLoaded(c, len(s), ucfg.PathSep("."))
+	}},
+	{"path as name argument of SetInt/Int/Has/Child/Remove", deepPathShapes, func(s string) string {
+		o := ucfg.PathSep(".")
+		c := ucfg.New()
+		if err := c.SetInt(s, -1, 1, o); err != nil {
+			return "error"
+		}
+		c.Int(s, -1, o)
+		c.Has(s, -1, o)
+		c.Child(s, -1, o)
+		out := readLoaded(c, len(s), o)
+		c.Remove(s, -1, o)
+		return out
+	}},
+	{"path in a ${reference} and a flag name", deepPathShapes, func(s string) string {
+		opts := []ucfg.Option{ucfg.VarExp, ucfg.PathSep(".")}
+		c, err := ucfg.NewFrom(map[string]interface{}{"s": "${" + s + "}", "d": "${" + s + ":x}"}, opts...)
+		if err == nil {
+			c.String("s", -1, opts...)
+			c.String("d", -1, opts...)
+		}
+		fv := uflag.NewFlagKeyValue(ucfg.New(), true, ucfg.PathSep("."))
+		if e2 := fv.Set(s + "=1"); e2 != nil || err != nil {
+			return "error"
+		}
+		return "value"
+	}},
+}
+
+var deepRoutes = append(append([]deepRoute{}, deepRoutesBase...), deepRoutesR4...)
+
 // order: the routes with a recursion of their own first (the supervisor stops
 // a batch after five violating cases)
-var deepRoutes = []deepRoute{
+var deepRoutesBase = []deepRoute{
 	{"parse.Value", deepParseShapes, func(s string) string { return outcome(parse.Value(s)) }},
 	loaderRoute("hjson.NewConfig", uhjson.NewConfig),
 	{"flag.FlagValue.Set(k=<value>)", deepParseShapes, func(s string) string {
@@ -219,6 +339,16 @@ func deepShapesFor(tier string, rt deepRoute) []int {
 		want = map[string]bool{"open-lists": true}
 	case strings.HasSuffix(rt.name, "(PathSep,VarExp)"):
 		want = map[string]bool{"closed-objects": true}
+	case rt.family() == "varexp-expression":
+		want = map[string]bool{"nested-references": true, "nested-defaults": true}
+		if strings.Contains(rt.name, "JSON") {
+			want = map[string]bool{"nested-alternatives": true}
+		}
+	case rt.family() == "path-segments":
+		want = map[string]bool{"name-segments": true}
+		if strings.Contains(rt.name, "NewFrom") {
+			want["index-segments"] = true
+		}
 	default:
 		want = map[string]bool{"open-lists": true, "closed-objects": true}
 	}
@@ -240,6 +370,9 @@ func deepChild(spec string) {
 	syscall.Setrlimit(syscall.RLIMIT_AS, &lim)
 	debug.SetMemoryLimit(3 << 30)
 	parts := strings.Split(spec, ",")
+	if len(parts) == 3 && parts[0] == "U" {
+		unitChild(parts[1], parts[2]) // never returns
+	}
 	if len(parts) < 3 {
 		fmt.Println("BADSPEC")
 		os.Exit(0)
@@ -426,35 +559,50 @@ func recursionOwner(trace string) (pkg string, fns []string) {
 // deepCases: quick = one case per route (a runaway recursion of one route
 // shows up as one violating case; a few probe processes each); thorough = one
 // case per (route, shape), a case stays far below the stall allowance.
-func deepCases(tier string) int {
+func deepCases(tier string) int { return deepCasesOf(tier, 0, len(deepRoutesBase)) }
+
+func runDeep(m *mon, r *rand.Rand, seed int64, tier string, k int) {
+	runDeepOf(m, tier, k, 0, len(deepRoutesBase))
+}
+
+// the routes added later (expressions, paths) are a segment of their own, away
+// from the first ones: the supervisor hands out neighbouring cases as one batch
+func deepCasesR4(tier string) int { return deepCasesOf(tier, len(deepRoutesBase), len(deepRoutes)) }
+
+func runDeepR4(m *mon, r *rand.Rand, seed int64, tier string, k int) {
+	runDeepOf(m, tier, k, len(deepRoutesBase), len(deepRoutes))
+}
+
+func deepCasesOf(tier string, lo, hi int) int {
 	if tier != "thorough" {
-		return len(deepRoutes)
+		return hi - lo
 	}
 	n := 0
-	for _, rt := range deepRoutes {
+	for _, rt := range deepRoutes[lo:hi] {
 		n += len(rt.shapes)
 	}
 	return n
 }
 
-func runDeep(m *mon, r *rand.Rand, seed int64, tier string, k int) {
+func runDeepOf(m *mon, tier string, k, lo, hi int) {
 	if tier == "thorough" {
-		for ri, rt := range deepRoutes {
+		for ri := lo; ri < hi; ri++ {
+			rt := deepRoutes[ri]
 			if k < len(rt.shapes) {
 				m.res.SetAdd("entry_point", rt.name)
 				m.res.SetAdd("h_route", rt.name)
-				runDeepShape(m, ri, k, deepDepthsFor(tier))
+				runDeepShape(m, ri, k, deepDepthsFor(tier, rt.family()))
 				return
 			}
 			k -= len(rt.shapes)
 		}
 		return
 	}
-	rt := deepRoutes[k]
+	rt := deepRoutes[lo+k]
 	m.res.SetAdd("entry_point", rt.name)
 	m.res.SetAdd("h_route", rt.name)
 	for _, si := range deepShapesFor(tier, rt) {
-		runDeepShape(m, k, si, deepDepthsFor(tier))
+		runDeepShape(m, lo+k, si, deepDepthsFor(tier, rt.family()))
 	}
 }
 
